@@ -34,3 +34,4 @@ def rules(ctx):
     S.oldest_search_rules(ctx)
     S.full_range_rules(ctx)
     S.c12_tree_rules(ctx)
+    S.snapshot_atomic_rules(ctx)
